@@ -25,7 +25,7 @@ def required(tier):
     return ['set-zero', 'mix-zero', 'mix', 'mix:single-inlet', 'mix:Q', 'mix:heat-object', 'mix:pressure', 'separate', 'set-H', 'set-h', 'set-S', 'set-current', 'multi-phase',
             'mix2:liquid+gas', 'mix2:multi-phase-inlet', 'mix2:multi-phase-receiver', 'mix2:stale-receiver', 'mix2:receiver-not-first-or-twice', 'mix2:conserve_phases', 'mix2:several-heat-objects',
             'mix2:Q-number-and-heat-objects', 'mix2:Q-with-only-the-receiver', 'mix2:form-sum', 'mix2:form-add', 'mix2:form-iadd', 'sep2:other-in-another-phase', 'sep2:multi-phase', 'sep2:self',
-            'sep2:empty-other', 'sep2:isub', 'set-Hnet', 'set2:target-at-end-of-range', 'multi-phase2:empty-phase', 'multi-phase2:one-non-empty-phase', 'multi-phase2:one-phase', 'multi-phase2:L']
+            'sep2:empty-other', 'sep2:isub', 'sep2:same-T-P', 'set-Hnet', 'set2:target-at-end-of-range', 'multi-phase2:empty-phase', 'multi-phase2:one-non-empty-phase', 'multi-phase2:one-phase', 'multi-phase2:L']
 
 
 class Heat:
@@ -266,7 +266,7 @@ def gen_case2(rng):
             lo, hi = Trange(b['phase']); b['T'] = min(max(b['T'], lo + 5), hi - 5)
             b['flows'] = [round(v * 0.02, 6) for v in b['flows']]
             mkind = 'S'; mphase = a['phase']
-        return {'t': 'sep2', 'form': form, 'a': a, 'b': b, 'mkind': mkind, 'mphase': mphase}
+        return {'t': 'sep2', 'form': form, 'a': a, 'b': b, 'mkind': mkind, 'mphase': mphase, 'sameTP': rng.random() < 0.3}      # sameTP: the stream taken out is brought to the mixture's T and P first
     if t == 'set2':
         sd = gen_inlet2(rng, n)
         if not nonempty_d(sd):
@@ -429,6 +429,12 @@ def run_case2(case, rec):
             m.mix_from([a, b], energy_balance=True)
             lo, hi = range_of(m)
             if not (lo <= m.T <= hi): rec.refuse('the mixture to separate from is itself outside the model range of the phase it is held in'); return
+            if case.get('sameTP'):
+                # equal thermal conditions on both sides (a vapour taken off a liquid at flash conditions): the enthalpies still differ by the latent heat
+                b.T = m.T; b.P = m.P
+                lob, hib = range_of(b)
+                if not (lob <= b.T <= hib): rec.refuse('the stream taken out is outside the model range of its phase at the mixture temperature'); return
+                rec.hit('sep2:same-T-P')
             H0 = m.H; Hb = b.H
             tag = ('multi' if isinstance(m, tmo.MultiStream) else 'single') + '-phase-mixture/' + ('multi' if isinstance(b, tmo.MultiStream) else 'single') + '-phase-other' + ('/isub' if form == 'isub' else '')
             other_phase = not isinstance(m, tmo.MultiStream) and not isinstance(b, tmo.MultiStream) and b.phase != m.phase
@@ -449,7 +455,7 @@ def run_case2(case, rec):
             lo, hi = range_of(m)
             if not (lo - 60 < m.T < hi + 80): rec.refuse('temperature after separation outside the model range'); return
             res = abs(H1 - (H0 - Hb))
-            rec.check(res <= 1e-5 * C1 + 1e-12 * abs(H0), 'separate', 'enthalpy/' + tag + ('/other-in-another-phase' if other_phase else ''),
+            rec.check(res <= 1e-5 * C1 + 1e-12 * abs(H0), 'separate', 'enthalpy/' + tag + ('/other-in-another-phase' if other_phase else '') + ('/same-T-P' if case.get('sameTP') else ''),
                       f'separate_out: H after {H1!r} != H before {H0!r} - H other {Hb!r} (residual {res:.4g}, C {C1:.4g})', residual=res / C1)
             rec.hit('sep2')
             if other_phase: rec.hit('sep2:other-in-another-phase')
